@@ -134,7 +134,7 @@ def read_state(c, g):
                 err = None
             except Exception as e:
                 got, err = None, e
-        warned = any("interpolated" in str(x.message) for x in w)
+        warned = any(not issubclass(x.category, (DeprecationWarning, FutureWarning, PendingDeprecationWarning)) for x in w)
         if err is not None:
             occ[si] = None
             answers.append("raise:" + type(err).__name__)
